@@ -77,7 +77,7 @@ def main():
             m=re.search(r'suite: (.*)',txt)
             if m: conf['pinned_suite_with_change']=m.group(1)
             rr=re.findall(r'rerun-alone: (.*)',txt)
-            if rr: conf['failed_stable_tests_rerun_alone_with_change']=rr
+            if rr: conf['failed_stable_tests_rerun_alone_with_change']=sorted(set(rr))
         extra=f'/tmp/ev/confirm_{pid}{v}.extra'
         if os.path.exists(extra): conf['notes']=open(extra).read().strip()
         meta={'name':name,'property':prop,'change':what,'needs_to_manifest':needs,'demonstration':demos,
